@@ -342,7 +342,7 @@ def run(ctx):
 
     # element-wise comparison of two sequences stops at the shorter one: the lengths have to be compared as well
     ctx.rule('C12.5-zip-needs-length', 'every helper on the comparison path that walks two slices in step (zip) also compares their lengths (before the walk or as the tie-break after it): '
-             'without it a sequence and its proper prefix compare Equal - two funs whose environments are [1] and [1,2] become the same map key', floor=1)
+             'without it a sequence and its proper prefix compare Equal - two funs whose environments are [1] and [1,2] become the same map key', floor=0)
     from ..families import bodies_of_fn as _bf12, comparator_calls as _cmpc
     seen_z = set()
     for root in (CMP_O, CMP_B):
